@@ -3,6 +3,8 @@
 #include "gates.hpp"
 #include "iokinds.hpp"
 #include <thread>
+#include <locale>
+#include <cerrno>
 VH_MAIN_GLOBALS
 using namespace vh;
 
@@ -44,6 +46,7 @@ static void roundtrip_one(const Kind &k, int sz, IoGen &g) {
     for (int tr = 0; tr < 2; tr++) {
         VH_OP("import:%s:%s", k.name.c_str(), tr ? "file" : "stream");
         HP im; long pos = -1; bool good = true;
+        errno = rng.below(3) == 0 ? 0 : (rng.coin() ? ERANGE : EINVAL);     // whatever an earlier, unrelated call left behind
         if (tr == T_STREAM) { std::istringstream is(s1, std::ios::binary); im = k.imp_s(is, *o); good = (bool) is; is.clear(); pos = (long) is.tellg(); }
         else { FILE *f = fmemopen((void *) s1.data(), s1.size(), "rb"); im = k.imp_f(f, *o); pos = ftell(f); fclose(f); }
         out.evaluations++;
@@ -190,6 +193,13 @@ int main(int argc, char **argv) {
     uint64_t seed = args.i("seed", 1);
     rng.reseed(seed * 1000003ull + args.i("shard", 0) * 101);
     seed_library(seed + args.i("shard", 0));
+    // environment: an application may have installed a global C++ locale whose numbers use a decimal comma and digit grouping;
+    // the serialized format does not depend on it (only the C++ locale can be varied here: the image has no other C locales)
+    if (args.i("locale", 0)) {
+        struct Comma : std::numpunct<char> { char do_decimal_point() const override { return ','; } char do_thousands_sep() const override { return '.'; } std::string do_grouping() const override { return "\3"; } };
+        std::locale::global(std::locale(std::locale(), new Comma));
+        out.cell("environment:global-locale-with-decimal-comma-and-grouping");
+    }
     IoGen g(rng);
     std::vector<Kind> K = io_kinds();
     std::string mode = args.s("mode", "single");
@@ -203,6 +213,29 @@ int main(int argc, char **argv) {
         // the same kinds in reverse order: a long export (secret key set) now precedes shorter ones on the same thread,
         // so state kept by an exporter between calls (staging buffers, cached sections) shows up as differing bytes
         for (auto it = K.rbegin(); it != K.rend(); ++it) roundtrip_one(*it, 0, g);
+    } else if (mode == "longrun") {
+        // call number K behaves like call number 1: tiny objects of every light kind exported and re-imported far more often than any
+        // 8- or 16-bit counter or table in the I/O layer could count (the library keeps every imported parameter object alive)
+        int count = args.i("count", 70000);
+        std::vector<const Kind *> light; for (auto &k: K) if (k.name == "LweParams" || k.name == "LweSample" || k.name == "TLweParams" || k.name == "TGswParams" || k.name == "LweKey" || k.name == "GateBootstrappingParameterSet") light.push_back(&k);
+        for (const Kind *k: light) {
+            HP o = k->make(g, 0);
+            std::string s1 = to_stream_bytes([&](std::ostream &os) { k->exp_s(os, *o); });
+            uint64_t bad = 0; int first = -1;
+            for (int it = 0; it < count; it++) {
+                VH_OP("longrun:%s:call=%d", k->name.c_str(), it);
+                int tr = it & 1; HP im;
+                if (tr == T_STREAM) { std::istringstream is(s1, std::ios::binary); im = k->imp_s(is, *o); }
+                else { FILE *f = fmemopen((void *) s1.data(), s1.size(), "rb"); im = k->imp_f(f, *o); fclose(f); }
+                bool ok = im->obj && k->cmp(*o, *im).empty();
+                if (ok && (it % 16) == 0) { std::string s3 = tr ? to_file_bytes([&](FILE *f) { k->exp_f(f, *im); }) : to_stream_bytes([&](std::ostream &os) { k->exp_s(os, *im); }); ok = s3 == s1; }
+                out.evaluations++;
+                if (!ok) { bad++; if (first < 0) first = it; }
+            }
+            if (bad) out.viol("io:" + k->name + ":round-trip-fails-after-many-calls", J().s("kind", k->name).i("first_failing_call", first).u("failing_calls", bad).i("calls", count));
+            char cell[96]; snprintf(cell, sizeof cell, "%s:longrun:%d-round-trips", k->name.c_str(), count); out.cell(cell, count);
+        }
+        out.sample(J().s("mode", "longrun").i("round_trips_per_kind", count));
     } else if (mode == "handoff") {
         for (auto &k: K) { bool heavy = k.name == "CloudKeySet" || k.name == "SecretKeySet"; for (int r = 0; r < (heavy ? (reps + 4) / 5 : reps); r++) handoff(k, r % 3 == 0 ? 0 : 1, g); }
         out.sample(J().s("mode", "handoff").s("history", "export on a writer thread, import on a loader thread that exits, compare/re-export on main, release on a third thread"));
